@@ -34,6 +34,7 @@ type TLCRun struct {
 	Module   string            // MC module name (file Module.tla, config Module.cfg unless Cfg set)
 	Cfg      string            // optional cfg file name
 	Consts   map[string]string // optional: constants appended to a generated cfg (NAME = value)
+	ConstSubst map[string]string // optional: constant substitutions (NAME <- definition)
 	Workers  int
 	Timeout  time.Duration
 	HeapGB   int
@@ -151,7 +152,7 @@ func (r TLCRun) Stream(par int, handle func(State)) (TLCStats, error) {
 	if cfg == "" {
 		cfg = r.Module + ".cfg"
 	}
-	if len(r.Consts) > 0 {
+	if len(r.Consts) > 0 || len(r.ConstSubst) > 0 {
 		b, err := os.ReadFile(filepath.Join(scratch, cfg))
 		if err != nil {
 			return stats, err
@@ -161,6 +162,9 @@ func (r TLCRun) Stream(par int, handle func(State)) (TLCStats, error) {
 		sb.WriteString("\nCONSTANTS\n")
 		for k, v := range r.Consts {
 			fmt.Fprintf(&sb, "  %s = %s\n", k, v)
+		}
+		for k, v := range r.ConstSubst {
+			fmt.Fprintf(&sb, "  %s <- %s\n", k, v)
 		}
 		cfg = "gen_" + cfg
 		if err := os.WriteFile(filepath.Join(scratch, cfg), []byte(sb.String()), 0o644); err != nil {
